@@ -32,6 +32,23 @@
                                          (screen / coeff: the element itself; the others: a `parent` holding the output)
         `rt <class> <1|2> <tree>`       class level: parse the element with the concrete parser of the class for the
                                          version, construct, and write it again -> `<tree>` | `E`
+        `cp <n> <track>*`               populate_chna_chunk -> `ok <n> <row>*` | `E <error>`
+        `cl <k> <id|~>* <n> <track>* <m> <row>*`   load_chna_chunk on a document whose other elements have the ids given
+                                         (chain order), with the audioTrackUIDs and CHNA rows given -> `ok <n> <track>*` | `E <error>`
+        `cv <channels> <n> <track>*`    validate_trackIndex -> `ok` | `E indexTooLarge`
+        `cg <n> <track>*`               guess_track_indices -> `ok <n> <track>*` | `E <error>`
+        `cc <m> <row>*`                 chunk data of ChnaChunk.asByteArray -> `<hex>` | `E`
+        `cx <hex>`                      _read_chna_chunk on the chunk data -> `ok <m> <row>*` | `E short` | `E numTracks`
+          track = `<id> <idx|~> <tf|~> <cf|~> <pf|~> <tfIDRef|~> <cfIDRef|~> <pfIDRef|~>` (ids as hex bytes, `-` = empty);
+          row = `<idx> <uid> <ref> <pack|~>`
+        `ar <elem> ; <elem> ; …`        ADM() + addAudio…(elem) in the given order + lazy_lookup_references()
+                                         -> `ok <elem-out> ; …` (chain order after the duplicate pass) | `E <error>`
+        `al <key> ; <elem> ; …`         lookup_element(key) -> `<oid>` | `E keyError`
+          elem = `<ap|ac|ao|apf|acf|asf|atf|atu> <oid> <id|~> <common 0|1> <streamLink|~> <enc> <avs> <field>*`,
+          enc = `~` | `oid,oid…`, avs = `~` | `oid:<id|~>,…`, field = `<name> <pend> <res>` with pend = `~` (None) | `P<item>,…`
+          (item = `=…` string | `~` None), res = `R<oid|~>,…`; for acf the fields are `blk` (next block format),
+          `out <pend> <res>`, `in <pend> <res>`;
+          elem-out = `<oid> <streamLink|~> <enc> <name>:<P|->:<res> …`
    out: `bad-op` for a malformed line. -/
 import Earverif.Model.TimeFormat
 import Earverif.Model.GenIds
@@ -39,6 +56,8 @@ import Earverif.Model.Chna
 import Earverif.Model.XmlLeaf
 import Earverif.Model.XmlCustom
 import Earverif.Model.XmlElements
+import Earverif.Model.ChnaTransfer
+import Earverif.Model.AdmRefs
 import Earverif.Driver.Util
 open Earverif.Driver Earverif.Digits
 
@@ -569,6 +588,195 @@ def answerC (ws : List String) : String :=
 
 end Classes
 
+/-! ### round 5: CHNA <-> audioTrackUID transfer, id map and reference resolution -/
+section Transfer
+open Earverif.ChnaTransfer Earverif.Chna
+
+def optBytes? (w : String) : Option (Option Bytes) := if w = "~" then some none else (bytes? w).map some
+def showOptBytes : Option Bytes → String | some b => hexOf b | none => "~"
+def optNat? (w : String) : Option (Option Nat) := if w = "~" then some none else w.toNat?.map some
+def showOptNat : Option Nat → String | some n => toString n | none => "~"
+
+def track? : List String → Option (TrackUID × List String)
+  | id :: idx :: tf :: cf :: pf :: tfr :: cfr :: pfr :: rest => do
+    some (⟨← bytes? id, ← optNat? idx, ← optBytes? tf, ← optBytes? cf, ← optBytes? pf, ← optBytes? tfr,
+      ← optBytes? cfr, ← optBytes? pfr⟩, rest)
+  | _ => none
+
+def chnaRow? : List String → Option (Entry × List String)
+  | idx :: uid :: ref :: pack :: rest => do
+    some (⟨← idx.toNat?, ← bytes? uid, ← bytes? ref, ← optBytes? pack⟩, rest)
+  | _ => none
+
+def many? {α} (one : List String → Option (α × List String)) : Nat → List String → List α → Option (List α × List String)
+  | 0, ws, acc => some (acc.reverse, ws)
+  | n + 1, ws, acc => do
+    let (x, ws) ← one ws
+    many? one n ws (x :: acc)
+
+/-- `<count> <item>*` -/
+def counted? {α} (one : List String → Option (α × List String)) : List String → Option (List α × List String)
+  | n :: ws => do many? one (← n.toNat?) ws []
+  | [] => none
+
+def showTrack (t : TrackUID) : String :=
+  s!"{hexOf t.id} {showOptNat t.trackIndex} {showOptBytes t.audioTrackFormat} {showOptBytes t.audioChannelFormat} {showOptBytes t.audioPackFormat} {showOptBytes t.audioTrackFormatIDRef} {showOptBytes t.audioChannelFormatIDRef} {showOptBytes t.audioPackFormatIDRef}"
+
+def showRow (e : Entry) : String :=
+  s!"{e.trackIndex} {hexOf e.audioTrackUID} {hexOf e.audioTrackFormatIDRef} {showOptBytes e.audioPackFormatIDRef}"
+
+def showErr (e : Earverif.ChnaTransfer.Err) : String :=
+  match e with
+  | .bothLinked => "bothLinked" | .refConflict => "refConflict" | .packConflict => "packConflict"
+  | .silentUID => "silentUID" | .indexMismatch => "indexMismatch" | .duplicateID => "duplicateID"
+  | .unknownRef => "unknownRef" | .noTrackIndex => "noTrackIndex" | .noFormatRef => "noFormatRef"
+  | .bothFormats => "bothFormats" | .indexTooLarge => "indexTooLarge" | .indexAlreadySet => "indexAlreadySet"
+  | .invalidUID => "invalidUID"
+
+def showTracks : Except Earverif.ChnaTransfer.Err (List TrackUID) → String
+  | .ok ts => " ".intercalate (s!"ok {ts.length}" :: ts.map showTrack)
+  | .error e => "E " ++ showErr e
+
+def showRows (rs : List Entry) : String := " ".intercalate (s!"ok {rs.length}" :: rs.map showRow)
+
+def optId? (ws : List String) : Option (Option Bytes × List String) :=
+  match ws with
+  | w :: rest => (optBytes? w).map (·, rest)
+  | [] => none
+
+def answerT (ws : List String) : String :=
+  match ws with
+  | "cp" :: rest =>
+    match counted? track? rest with
+    | some (ts, []) =>
+      match populateChna ts with
+      | .ok rs => showRows rs
+      | .error e => "E " ++ showErr e
+    | _ => "bad-op"
+  | "cl" :: rest =>
+    match (do
+      let (others, r) ← counted? optId? rest
+      let (ts, r) ← counted? track? r
+      let (rs, r) ← counted? chnaRow? r
+      if r.isEmpty then some (others, ts, rs) else none) with
+    | some (others, ts, rs) => showTracks (loadChnaADM others ts rs)
+    | none => "bad-op"
+  | "cv" :: n :: rest =>
+    match n.toNat?, counted? track? rest with
+    | some n, some (ts, []) =>
+      match validateTrackIndex ts n with
+      | .ok _ => "ok"
+      | .error e => "E " ++ showErr e
+    | _, _ => "bad-op"
+  | "cg" :: rest =>
+    match counted? track? rest with
+    | some (ts, []) => showTracks (guessTrackIndices ts)
+    | _ => "bad-op"
+  | "cc" :: rest =>
+    match counted? chnaRow? rest with
+    | some (rs, []) =>
+      match encodeChunk rs with
+      | some bs => hexOf bs
+      | none => "E"
+    | _ => "bad-op"
+  | ["cx", h] =>
+    match bytes? h with
+    | some bs =>
+      match decodeChunk bs with
+      | .ok rs => showRows rs
+      | .error .short => "E short"
+      | .error .numTracks => "E numTracks"
+    | none => "bad-op"
+  | _ => "bad-op"
+
+end Transfer
+
+section Refs
+open Earverif.AdmRefs
+
+def cls? (w : String) : Option Cls :=
+  if w = "ap" then some .programme else if w = "ac" then some .content else if w = "ao" then some .object
+  else if w = "apf" then some .pack else if w = "acf" then some .channel else if w = "asf" then some .stream
+  else if w = "atf" then some .track else if w = "atu" then some .trackUID else none
+
+def optOid? (w : String) : Option (Option Nat) := if w = "~" then some none else w.toNat?.map some
+def optIdS? (w : String) : Option (Option String) := if w = "~" then some none else (decStr? w).map some
+
+def commaList (w : String) : List String := if w.isEmpty then [] else w.splitOn ","
+
+def pend? (w : String) : Option (Pend String) :=
+  if w = "~" then some none else
+  match w.toList with
+  | 'P' :: r => (commaList (String.ofList r)).mapM optIdS? |>.map some
+  | _ => none
+
+def res? (w : String) : Option Res :=
+  match w.toList with
+  | 'R' :: r => (commaList (String.ofList r)).mapM optOid?
+  | _ => none
+
+def encList? (w : String) : Option (List Nat) := if w = "~" then some [] else (w.splitOn ",").mapM String.toNat?
+
+def avsList? (w : String) : Option (List (Nat × Option String)) :=
+  if w = "~" then some [] else
+  (w.splitOn ",").mapM fun p => match p.splitOn ":" with
+    | [o, i] => do some (← o.toNat?, ← optIdS? i)
+    | _ => none
+
+def namedFields? : List String → List (String × Pend String × Res) → Option (List (String × Pend String × Res))
+  | [], acc => some acc.reverse
+  | nm :: p :: r :: rest, acc => do namedFields? rest ((nm, ← pend? p, ← res? r) :: acc)
+  | _, _ => none
+
+/-- the `blk` / `out` / `in` tokens of an audioChannelFormat -/
+def blocks? : List String → List (BlockRefs String) → Option (List (BlockRefs String))
+  | [], acc => some acc.reverse
+  | "blk" :: rest, acc => blocks? rest (⟨none, []⟩ :: acc)
+  | "out" :: p :: r :: rest, b :: acc => do blocks? rest ({ b with output := some (← pend? p, ← res? r) } :: acc)
+  | "in" :: p :: r :: rest, b :: acc => do blocks? rest ({ b with inputs := b.inputs ++ [(← pend? p, ← res? r)] } :: acc)
+  | _, _ => none
+
+def elem? (ws : List String) : Option (Elem String) :=
+  match ws with
+  | c :: oid :: id :: common :: sl :: enc :: avs :: rest => do
+    let c ← cls? c
+    let fields ← if c = .channel then (blocks? rest []).map channelFields
+      else (namedFields? rest []).map fun nf => fieldsOf c fun nm => (nf.find? (·.1 = nm)).map (·.2)
+    some ⟨← oid.toNat?, c, ← optIdS? id, ← bool? common, fields, ← optOid? sl, ← encList? enc, ← avsList? avs⟩
+  | _ => none
+
+def showOptOid : Option Nat → String | some n => toString n | none => "~"
+def showRes (r : Res) : String := "R" ++ ",".intercalate (r.map showOptOid)
+def showEnc (l : List Nat) : String := if l.isEmpty then "~" else ",".intercalate (l.map toString)
+
+def showElem (e : Elem String) : String :=
+  " ".intercalate ([toString e.oid, showOptOid e.streamLink, showEnc e.encodePacks] ++
+    e.fields.map fun f => s!"{f.name}:{if f.pending.isSome then "P" else "-"}:{showRes f.resolved}")
+
+def showRefErr : Earverif.AdmRefs.Err → String
+  | .admIDError => "admIDError" | .assertionError => "assertionError" | .keyError => "keyError"
+  | .attributeError => "attributeError" | .admError => "admError"
+
+def answerR (line : String) : String :=
+  match (line.splitOn ";").map words with
+  | ("ar" :: first) :: elems =>
+    match ((first :: elems).filter (· ≠ [])).mapM elem? with
+    | some es =>
+      match lazyLookupReferences upStr (es.foldl ADM.add ADM.empty) with
+      | .ok a => "ok " ++ " ; ".intercalate (a.elements.map showElem)
+      | .error e => "E " ++ showRefErr e
+    | none => "bad-op"
+  | ["al", key] :: elems =>
+    match decStr? key, (elems.filter (· ≠ [])).mapM elem? with
+    | some key, some es =>
+      match lookup upStr (es.foldl ADM.add ADM.empty).elements key with
+      | some e => toString e.oid
+      | none => "E keyError"
+    | _, _ => "bad-op"
+  | _ => "bad-op"
+
+end Refs
+
 def answer (line : String) : String :=
   match words line with
   | "tp" :: ws =>
@@ -599,6 +807,14 @@ def answer (line : String) : String :=
     if ["poff", "grange", "prange", "screen", "coeff1", "coeff2", "matrix1", "matrix2"].contains which then
       answerC ("hx" :: which :: rest)
     else answerH ("hx" :: which :: rest)
+  | "cp" :: _ => answerT (words line)
+  | "cl" :: _ => answerT (words line)
+  | "cv" :: _ => answerT (words line)
+  | "cg" :: _ => answerT (words line)
+  | "cc" :: _ => answerT (words line)
+  | "cx" :: _ => answerT (words line)
+  | "ar" :: _ => answerR line
+  | "al" :: _ => answerR line
   | "xp" :: _ => answerX line
   | "xt" :: _ => answerX line
   | "gi" :: _ => answerGi ((line.dropWhile (· == ' ')).drop 2).toString
